@@ -218,8 +218,14 @@ fn check_api_subset(ctx: &mut Ctx, a: &Ast, text: &str, subset: &[usize]) {
 }
 
 fn check_api(ctx: &mut Ctx, a: &Ast, text: &str, perm: &[usize], with_unused: bool) {
+    check_api_v(ctx, a, text, perm, with_unused, false);
+    // the same symbols handed over as a vector listed in DESCENDING id order: the ids decide
+    check_api_v(ctx, a, text, perm, with_unused, true);
+}
+
+fn check_api_v(ctx: &mut Ctx, a: &Ast, text: &str, perm: &[usize], with_unused: bool, descending: bool) {
     let Some(exp) = expect_of(a) else { return };
-    let c = json!({"part": "api", "text": text, "perm": perm, "unused": with_unused});
+    let c = json!({"part": "api", "text": text, "perm": perm, "unused": with_unused, "vector_descending": descending});
     ctx.begin_case(|| c.clone());
     ctx.count("evaluations", 1);
     // distinct, non-contiguous ids in the order of the permutation
@@ -240,6 +246,10 @@ fn check_api(ctx: &mut Ctx, a: &Ast, text: &str, perm: &[usize], with_unused: bo
         order.push(exp.names[*p].clone());
         slot += 1;
     }
+    if descending {
+        ordering.reverse();
+    }
+    let given: Vec<(String, usize)> = ordering.iter().map(|s| (s.name.as_ref().clone(), s.id)).collect();
     let key = format!("{TAG} api {:?} with ordering {:?}", text, ordering.iter().map(|s| format!("{}#{}", s.name, s.id)).collect::<Vec<_>>());
     ctx.distinct(&key);
     let p = match impl_parse_bytes(text.as_bytes(), Some(ordering)) {
@@ -260,6 +270,15 @@ fn check_api(ctx: &mut Ctx, a: &Ast, text: &str, perm: &[usize], with_unused: bo
     }
     if names_of(&p.free_vars) != want_free {
         cs.push(format!("free_vars = {:?}, expected {:?}", names_of(&p.free_vars), want_free));
+    }
+    // the symbols of the parsed formula are the caller's symbols
+    for v in p.vars.iter().chain(p.free_vars.iter()) {
+        if let Some((_, id)) = given.iter().find(|(n, _)| n == v.name.as_ref()) {
+            if *id != v.id {
+                cs.push(format!("variable {} was given id {} in the ordering but carries id {} in the parsed formula", v.name, id, v.id));
+                break;
+            }
+        }
     }
     for v in &p.free_vars {
         let want = want_free.iter().position(|n| n == v.name.as_ref());
@@ -425,7 +444,7 @@ fn replay(ctx: &mut Ctx, c: &Value) {
     }
     if c["part"].as_str() == Some("api") {
         let perm: Vec<usize> = c["perm"].as_array().map(|x| x.iter().map(|v| v.as_u64().unwrap_or(0) as usize).collect()).unwrap_or_default();
-        check_api(ctx, &a, text, &perm, c["unused"].as_bool().unwrap_or(false));
+        check_api_v(ctx, &a, text, &perm, c["unused"].as_bool().unwrap_or(false), c["vector_descending"].as_bool().unwrap_or(false));
     } else {
         check_cli(ctx, &a, text, c["ordering"].as_str().unwrap_or(""), true);
         crate::cli::cleanup_scratch();
